@@ -96,6 +96,14 @@ def val(a):
     return a.value if isinstance(a, u.Quantity) else np.asarray(a)
 
 
+def _eqv(g, e):
+    """equal values, NaN equal to NaN - separately for real and imaginary parts of complex numbers."""
+    if isinstance(g, (complex, np.complexfloating)) or isinstance(e, (complex, np.complexfloating)):
+        g, e = complex(g), complex(e)
+        return _eqv(g.real, e.real) and _eqv(g.imag, e.imag)
+    return bool(g == e or (g != g and e != e))
+
+
 def judge_mask_ops(obs, mask, box, image, fill, copy, dmask, tag):
     """Run every method on (mask, image) and compare with the model."""
     import astropy.units as u
@@ -126,7 +134,10 @@ def judge_mask_ops(obs, mask, box, image, fill, copy, dmask, tag):
         obs.check(okl and oks, 'overlap-slices-wrong', f'box {box} image {shape}: slices {sl!r},{ss!r}', 'slices')
 
     # -- to_image
-    for dt in (float, np.float32):
+    dts = [float, np.float32]
+    if np.asarray(mask.data).dtype.kind in 'iub' or not np.isnan(np.asarray(mask.data, dtype=float)).any():
+        dts += [int, bool, np.int16, np.uint8][:2 + (len(tag) % 3)]          # the docstring suggests integer / bool images for centre masks
+    for dt in dts:
         res = mask.to_image(shape, dtype=dt) if dt is not float else mask.to_image(shape)
         if ov is None:
             obs.check(res is None, 'to_image-not-None', f'to_image: no overlap (box {box}, image {shape}) but got {type(res).__name__}', 'none-on-no-overlap')
@@ -165,7 +176,7 @@ def judge_mask_ops(obs, mask, box, image, fill, copy, dmask, tag):
                         inside = 0 <= y < shape[0] and 0 <= x < shape[1]
                         e = imv[y, x] if inside else fill
                         g = rv[j, i]
-                        if not (g == e or (g != g and e != e)):
+                        if not _eqv(g, e):
                             ok = False
                         elif inside and imv.dtype.kind in 'iu' and np.isfinite(fill) and int(g) != int(e):
                             ok = False          # integers compared as integers (a float detour loses bits above 2**53)
@@ -209,6 +220,8 @@ def judge_mask_ops(obs, mask, box, image, fill, copy, dmask, tag):
                             g = rv[j, i]
                             if wgt > 0:
                                 basev = imv[y, x] if inside else fill
+                                if imv.dtype.kind == 'c':
+                                    basev = np.complex128(basev)       # the cutout has the data's type: NumPy's complex product of (inf+0j)
                                 if not np.isfinite(fill) and imv.dtype.kind in 'iub':
                                     basev = np.float64(basev)          # a non-finite fill makes the cutout a float array (documented)
                                 e = basev * wgt
@@ -217,7 +230,7 @@ def judge_mask_ops(obs, mask, box, image, fill, copy, dmask, tag):
                                     # integer image x integer weights, made float for the fill: the product may be formed exactly and
                                     # rounded once, or from the rounded pixel value - both are "pixel x weight"
                                     alt = np.float64(int(imv[y, x]) * int(wgt))
-                                if not (g == e or g == alt or (g != g and e != e)):
+                                if not (_eqv(g, e) or g == alt):
                                     ok, why = False, f'weight>0 pixel ({j},{i}): got {g!r}, expected {e!r}'
                                 elif inside and isinstance(e, (int, np.integer)) and np.isfinite(fill) and np.isfinite(g) and int(g) != int(e):
                                     ok, why = False, f'weight>0 pixel ({j},{i}): got {g!r}, expected the integer {int(e)}'
@@ -247,7 +260,7 @@ def judge_mask_ops(obs, mask, box, image, fill, copy, dmask, tag):
                         if wgt > 0 and not (dmask is not None and dmask[y, x]):
                             exp.append(imv[y, x] * wgt)
         rv = val(res)
-        ok = np.ndim(rv) == 1 and len(rv) == len(exp) and all(g == e or (g != g and e != e) for g, e in zip(rv, exp))
+        ok = np.ndim(rv) == 1 and len(rv) == len(exp) and all(_eqv(g, e) for g, e in zip(rv, exp))
         obs.check(ok, 'get_values-wrong', f'get_values: box {box} image {shape} ({tag}): got {np.asarray(rv).tolist()[:8]} expected {exp[:8]}', 'get_values')
         if unit is not None and len(exp):
             obs.check(unit_of(res) == unit, 'get_values-unit-lost', f'get_values lost the unit {unit}', 'unit')
@@ -319,6 +332,8 @@ def make_image(nrng, shape, kind):
             a[(m > 0.1) & (m < 0.2)] = np.inf
             a[(m > 0.2) & (m < 0.25)] = -np.inf
         return a
+    if kind == 'complex':
+        return nrng.normal(0, 10, shape) + 1j * nrng.normal(0, 10, shape)          # e.g. visibilities / Fourier planes
     if kind == 'quantity':
         return nrng.normal(0, 10, shape) * u.Jy
     if kind == 'quantity-scaled-dimensionless':
@@ -389,7 +404,7 @@ def run_case(case, obs):
         shape = (int(nrng.integers(0, 3)), int(nrng.integers(0, 3)))
     elif nrng.random() < 0.12:
         shape = (box[3] - box[2], box[1] - box[0])            # an image of exactly the mask's shape (the box may or may not sit at the origin)
-    kind = ['int16', 'int64', 'float32', 'float64', 'float64-nonfinite', 'quantity', 'uint16', 'bool', 'view', 'view', 'int64-big', 'quantity-scaled-dimensionless'][nrng.integers(12)]
+    kind = ['int16', 'int64', 'float32', 'float64', 'float64-nonfinite', 'quantity', 'uint16', 'bool', 'view', 'view', 'int64-big', 'quantity-scaled-dimensionless', 'complex'][nrng.integers(13)]
     image = make_image(nrng, shape, kind)
     fills = [0.0, 7.0, -1.5, np.nan, np.inf, -np.inf]
     if kind.startswith('int'):
